@@ -44,6 +44,7 @@ type flash struct {
 type script struct {
 	flashes []flash
 	olds    [][2]string
+	wipos   int // WithInput() is called after the first wipos With calls (only when olds is non-empty)
 }
 
 var (
@@ -62,10 +63,13 @@ func setup() {
 	app = fiber.New()
 	app.Get("/go", func(c fiber.Ctx) error {
 		r := c.Redirect()
-		for _, f := range cur.flashes {
+		for i, f := range cur.flashes {
+			if i == cur.wipos && len(cur.olds) > 0 {
+				r.WithInput()
+			}
 			r.With(f.key, f.val, f.level)
 		}
-		if len(cur.olds) > 0 {
+		if cur.wipos >= len(cur.flashes) && len(cur.olds) > 0 {
 			r.WithInput()
 		}
 		return r.To("/show")
@@ -304,7 +308,16 @@ func scriptFields(s script) []string {
 	if l == "" {
 		l = "-"
 	}
-	return []string{gen.HexList(ks), gen.HexList(vs), l, gen.HexList(oks), gen.HexList(ovs)}
+	return []string{gen.HexList(ks), gen.HexList(vs), l, gen.HexList(oks), gen.HexList(ovs), "wi" + strconv.Itoa(s.wipos)}
+}
+
+// nScriptFields: 6 when the line carries the WithInput position ("wi<N>"), 5 for older lines
+// (corpus, known-finding witnesses: WithInput after every With call).
+func nScriptFields(in []string) int {
+	if len(in) >= 6 && strings.HasPrefix(in[5], "wi") {
+		return 6
+	}
+	return 5
 }
 
 func parseScript(f []string) (script, bool) {
@@ -328,6 +341,14 @@ func parseScript(f []string) (script, bool) {
 	for i := range oks {
 		s.olds = append(s.olds, [2]string{oks[i], ovs[i]})
 	}
+	s.wipos = len(s.flashes)
+	if len(f) >= 6 {
+		p, err := strconv.Atoi(strings.TrimPrefix(f[5], "wi"))
+		if err != nil || p < 0 || p > len(s.flashes) {
+			return s, false
+		}
+		s.wipos = p
+	}
 	return s, true
 }
 
@@ -343,7 +364,8 @@ func runCase(w *gen.Writer, id, kind string, in []string) {
 		if len(in) < 5 {
 			return
 		}
-		s, ok := parseScript(in[:5])
+		nf := nScriptFields(in)
+		s, ok := parseScript(in[:nf])
 		if !ok {
 			return
 		}
@@ -353,7 +375,7 @@ func runCase(w *gen.Writer, id, kind string, in []string) {
 		} else {
 			obs = rtt(s)
 		}
-		w.Case(id, append(append([]string{kind}, in[:5]...), obs...)...)
+		w.Case(id, append(append([]string{kind}, in[:nf]...), obs...)...)
 	case "dec":
 		if len(in) < 1 {
 			return
